@@ -53,7 +53,7 @@ void harness(void) {
     _Bool is_send = ND_BOOL(), blocking = ND_BOOL();
     int T = ND_RANGE(0, 1000000);
     PSocket *S = is_send ? A : B;
-    p_socket_set_blocking(S, blocking);
+    p_socket_set_blocking(S, nd_pbool(blocking));
     p_socket_set_timeout(S, T);
     unsigned char buf[VS_CAP];
     PError *err = NULL;
